@@ -128,6 +128,7 @@ let cfg t : string =
             (if bad then "!" else "") ^ "K:" ^ evals acts
         | "e" ->
             settle_now ();
+            if !s.ph = Unlocking then (app [UnlockOk]; settle_now ());
             let bad = !s.ph <> Locking in
             app [LockErr]; settle_now ();
             (if bad then "!" else "") ^ "E" ^ pend ()
